@@ -119,6 +119,17 @@ ADD2 = {
  "C17": ("clone nil contradiction rule", "Copy() never dereferences an optional pointer field (the arguments object of a function environment)."),
  "C19": ("error-description census; printf-format dataflow; errors.Is target rule", "Every error the interpreter raises carries a description; run-time text is never used as a printf format (messages containing '%' are reported verbatim); no errors.Is test is dead by construction."),
 }
+ADD3 = {
+ "C02": ("depth-accounting must-pass-through rule; third-party call census", "Every path of (*object).call into a callee enters a scope first (or is the direct-eval branch, whose built-in counts its own nesting), so the stack depth limit sees every script-level call; every call into third-party code is recovered, self-recovering or reviewed."),
+ "C17": ("native-closure capture rule; mutable-payload clone rule", "No native function literal captures the runtime, an object or a stash of the runtime that created it (payloads are copied verbatim); every pointer payload whose fields change after construction gets a fresh wrapper in the copy."),
+ "C18": ("depth-accounting must-pass-through rule", "The stack depth limit is enforced for calls made from Go on a runtime at rest and for nested direct eval as for ordinary calls."),
+ "C19": ("frame.file pairing rule; third-party call census", "Eval code run in the caller's scope puts the caller's file and offset back; position lookup through a script-supplied source map cannot panic."),
+ "C20": ("native-closure capture rule; mutable-payload clone rule", "Copies share no closure bound to the template runtime and no mutable bridge wrapper."),
+}
+for _pid, (_t, _d) in ADD3.items():
+    t0, d0, n0 = P[_pid]
+    P[_pid] = (t0 + "; " + _t, d0 + " Also: " + _d, n0)
+
 for _pid, (_t, _d) in ADD2.items():
     t0, d0, n0 = P[_pid]
     P[_pid] = (t0 + "; " + _t, d0 + " Also: " + _d, n0)
